@@ -2,6 +2,7 @@
 UNITS = [
     Unit('spans', harness=['h_spans.cpp'], repo_units=['asmjit/support/arenavector.cpp']),
     Unit('assign', harness=['h_assign.cpp'], repo_units=[]),
+    Unit('assign_x64', harness=['h_assign.cpp'], repo_units=[], defines=['C05_X64']),
     Unit('stack', harness=['h_stack.cpp'], repo_units=['asmjit/core/rastack.cpp', 'asmjit/support/arenavector.cpp']),
     Unit('defs', harness=['h_defs.cpp'], repo_units=[]),
     Unit('decide', harness=['h_decide.cpp'], repo_units=['asmjit/core/ralocal.cpp']),
@@ -18,11 +19,13 @@ HARNESSES = [
 ] + [
     Harness('assign', 'h_assign_' + op, unwind=17, mem_gb=4, timeout=600, bounds='') for op in ('assign', 'unassign', 'reassign', 'swap', 'clean', 'dirty', 'copy', 'maps')
 ] + [
+    Harness('assign_x64', 'h_assign_' + op + '_x64', unwind=70, mem_gb=6, timeout=1200, tiers=('thorough',), bounds='') for op in ('assign', 'unassign', 'reassign', 'swap', 'clean', 'dirty', 'copy', 'maps')
+] + [
     Harness('stack', 'h_stack_' + nm, unwind=9, mem_gb=4, timeout=600, bounds='') for nm in ('frame_k1', 'frame_k2', 'frame_k3', 'frame_k4', 'adjust', 'new_slot', 'chain_k2', 'chain_k3')
 ] + [
     Harness('defs', 'h_defs_' + nm, unwind=6, mem_gb=2, timeout=300, bounds='') for nm in ('regcount', 'regmask', 'tied')
 ] + [
-    Harness('decide', 'h_decide_' + nm, unwind=17, mem_gb=4, timeout=600, bounds='') for nm in ('assignment', 'reassignment', 'spill')
+    Harness('decide', 'h_decide_' + nm, unwind=17, mem_gb=4, timeout=300, bounds='') for nm in ('assignment', 'reassignment', 'spill', 'spill_anyfreq', 'cost')
 ]
 EXPLANATION = 'wip'
 OUTSIDE = []
